@@ -1,6 +1,7 @@
 """C09 — inputs are selected only from permitted UTxOs, each at most once, canonical order, caller's objects unmodified."""
 import ast, json, os
 from lib import common as C
+from props import alike as A
 from lib.common import cn, cnat, cbool, chx, clist
 
 PID = 'C09'
@@ -560,7 +561,7 @@ def nontrivial(case, res):
 
 def correspond(ctx, n=None):
     n = n or ctx.n(900, 24000)
-    cases = corpus() + [gen_case(ctx.rng) for _ in range(n)]
+    cases = corpus() + [A.lookalike_ids(ctx.rng, gen_case(ctx.rng)) for _ in range(n)]
     results = C.run_impl('inputs_driver', {'cases': cases})
     mism, ofail, errs = evaluate(cases, results)
     if errs:
